@@ -29,7 +29,9 @@ func (it Item) String() string {
 }
 
 // Program is a canonical (types, mapping set): the unit that is counted as a state.
-// Shapes: S = START->S; L = START->L0->S; SL = START->S and START->L1->S; LL = START->L0->S, START->L1->S.
+// Shapes: S = START->S; L = START->L0->S; SL = START->S and START->L1->S; LL = START->L0->S, START->L1->S;
+// SLi = SL with START's input declared as data only (AddInputWithOptions(START, mappings, WithNoDirectDependency()):
+// the control path runs through L1), the same data flow declared through the other registration path.
 type Program struct {
 	Shape string   `json:"shape"`
 	Src   []string `json:"src"` // root type of predecessor slot 0 (and 1)
@@ -263,7 +265,7 @@ func boundsFor(quick bool) bounds {
 			ExtraLen:    3,
 			SetSrc:      []string{"T", "MSA"},
 			Set3Dst:     []string{"T", "MSA"},
-			Set3Cfg:     [][]string{{"S", "T"}, {"SL", "T", "MSA"}, {"LL", "T", "T"}},
+			Set3Cfg:     [][]string{{"S", "T"}, {"SL", "T", "MSA"}, {"SLi", "T", "MSA"}, {"LL", "T", "T"}},
 			Donors2:     2,
 			Donors3:     1,
 			DonorsEntry: 1,
@@ -274,7 +276,7 @@ func boundsFor(quick bool) bounds {
 		MaxLen:      3,
 		SetSrc:      []string{"T", "PT", "MSA", "MSS"},
 		Set3Dst:     []string{"T", "MSA"},
-		Set3Cfg:     [][]string{{"S", "T"}, {"S", "MSA"}, {"SL", "T", "MSA"}, {"LL", "T", "T"}},
+		Set3Cfg:     [][]string{{"S", "T"}, {"S", "MSA"}, {"SL", "T", "MSA"}, {"SLi", "T", "MSA"}, {"LL", "T", "T"}},
 		Donors2:     2,
 		Donors3:     1,
 		DonorsEntry: 2,
@@ -311,6 +313,9 @@ func setConfigs(b bounds) [][]string {
 		for _, c := range b.SetSrc {
 			out = append(out, []string{"SL", a, c})
 		}
+	}
+	for _, c := range b.SetSrc {
+		out = append(out, []string{"SLi", b.SetSrc[0], c})
 	}
 	for i, a := range b.SetSrc {
 		for _, c := range b.SetSrc[i:] {
